@@ -122,7 +122,7 @@ def check(prog, rep):
                 if ok is None:
                     rep.undecided(f"{fi.name}: {why}")
                     continue
-                rep.ob("R07.3", f"{fi.name}:values", ok, why, loc=f"{fi.module.rel}:{sc.lineno}", detail="aligned-with-backend-columns")
+                rep.ob("R07.3", f"{fi.name}:values", ok, why, loc=f"{fi.module.rel}:{sc.lineno}", detail="aligned-with-backend-columns", robust=True)   # _values_aligned answers None for what it cannot read
 
     # ------------------------------------------------------------------ R07.2
     # what the backend is asked to minimise, per world: -objective iff the user maximises (the output side -- the
@@ -162,14 +162,63 @@ def check(prog, rep):
     ext = prog.cls("LinearProgramExtractor").methods.get("extract_objective")
     if ext is None:
         raise AnalysisError("LinearProgramExtractor.extract_objective not found")
-    ok = False
-    for n in walk_local(ext.node, include_self=False):
-        if isinstance(n, ast.IfExp):
-            t = src(n.test)
-            b, o = (n.body.value if isinstance(n.body, ast.Constant) else None), (n.orelse.value if isinstance(n.orelse, ast.Constant) else None)
-            if ("sense == 'minimize'" in t and (b, o) == ("min", "max")) or ("sense == 'maximize'" in t and (b, o) == ("max", "min")):
-                ok = True
-    rep.pin("solution handles", "R07.2", "LinearProgramExtractor.extract_objective", ok, "maps minimize -> 'min', maximize -> 'max'" if ok else "the problem sense is not mapped to 'min'/'max' in the recognised form (or is inverted)", loc=ext.loc, detail="sense-mapping")
+    # walked once per world: the second component of what extract_objective returns (LPData.sense, see C05 R05.5)
+    from ..scenario import Explorer as _Ex
+
+    def _sense_holds(t, world):
+        text = src(t)
+        if "sense" not in text or not isinstance(t, ast.Compare) or len(t.ops) != 1:
+            return None
+        is_max, is_min = "'max" in text, "'min" in text
+        if not (is_max or is_min) or not isinstance(t.ops[0], (ast.Eq, ast.NotEq)):
+            return None
+        holds = (world == "max") == is_max
+        return holds if isinstance(t.ops[0], ast.Eq) else not holds
+
+    def _sval(e, env, world, depth=0):
+        if isinstance(e, ast.Constant) and isinstance(e.value, str):
+            return e.value
+        if isinstance(e, ast.Name) and e.id in env:
+            return env[e.id]
+        if isinstance(e, ast.IfExp):
+            r = _sense_holds(e.test, world)
+            return None if r is None else _sval(e.body if r else e.orelse, env, world, depth + 1)
+        if isinstance(e, ast.Subscript) and isinstance(e.value, ast.Dict) and "sense" in src(e.slice):
+            for k, v in zip(e.value.keys, e.value.values):
+                if isinstance(k, ast.Constant) and k.value == ("maximize" if world == "max" else "minimize"):
+                    return _sval(v, env, world, depth + 1)
+        if isinstance(e, ast.Call) and isinstance(e.func, ast.Attribute) and e.func.attr == "get" and isinstance(e.func.value, ast.Dict) and e.args and "sense" in src(e.args[0]):
+            for k, v in zip(e.func.value.keys, e.func.value.values):
+                if isinstance(k, ast.Constant) and k.value == ("maximize" if world == "max" else "minimize"):
+                    return _sval(v, env, world, depth + 1)
+        return None
+
+    got = {}
+    for world in ("max", "min"):
+        def at(t, state, world=world):
+            return _sense_holds(t, world)
+
+        def on(st, state, world=world):
+            if isinstance(st, (ast.Assign, ast.AnnAssign)) and getattr(st, "value", None) is not None:
+                tg = st.targets[0] if isinstance(st, ast.Assign) else st.target
+                if isinstance(tg, ast.Name):
+                    state["env"][tg.id] = _sval(st.value, state["env"], world)
+        vals = set()
+        try:
+            for state, term in _Ex(at, on).explore(ext.node.body, {"env": {}}):
+                if isinstance(term, tuple) and term[0] == "return" and isinstance(term[1], ast.Tuple) and len(term[1].elts) >= 2:
+                    vals.add(_sval(term[1].elts[1], state["env"], world))
+                elif isinstance(term, tuple) and term[0] == "return":
+                    vals.add(None)
+        except Exception:
+            vals = {None}
+        got[world] = vals
+    if any(None in v or len(v) != 1 for v in got.values()):
+        rep.undecided("LinearProgramExtractor.extract_objective: what is returned as the LP sense is not readable per problem sense")
+    else:
+        gm, gx = next(iter(got["min"])), next(iter(got["max"]))
+        ok = (gm, gx) == ("min", "max")
+        rep.ob("R07.2", "LinearProgramExtractor.extract_objective", ok, "maps minimize -> 'min', maximize -> 'max'" if ok else f"a minimisation is recorded as {gm!r} and a maximisation as {gx!r}: the LP solver negates the cost vector (and un-negates the reported value) for the wrong one", loc=ext.loc, detail="sense-mapping", robust=True)
 
     # ------------------------------------------------------------------ R07.3 (extractor side)
     ex = prog.cls("LinearProgramExtractor").methods.get("extract")
@@ -181,23 +230,48 @@ def check(prog, rep):
         raise AnalysisError("extract(): call to extract_objective not found")
     var_name = tup[0].targets[0].elts[-1].id
     uses = {"extract_constraints": False, "extract_bounds": False, "LPData.variables": False}
+    def same_list(e):
+        """True: the list that defined the columns; False: a reordering / another collection of it; None: not read"""
+        if isinstance(e, ast.Name) and e.id != var_name:
+            vals_ = [v for v in a.get(e.id, []) if isinstance(v, ast.AST)]
+            e = vals_[0] if len(vals_) == 1 else e
+        if src(e) == var_name:
+            return True
+        if isinstance(e, ast.Call) and (dotted(e.func) or "") in ("sorted", "reversed", "set", "frozenset") :
+            return False
+        if isinstance(e, ast.Subscript) and isinstance(e.slice, ast.Slice) and e.slice.step is not None:
+            return False            # a strided / reversed slice: another order
+        if isinstance(e, ast.Call) and dotted(e.func) == "list" and e.args and isinstance(e.args[0], ast.Call) and (dotted(e.args[0].func) or "") in ("sorted", "reversed", "set", "frozenset"):
+            return False
+        return None
+
+    uses = {}
+    whys = {}
     for c in calls(ex.node, local=False):
         f = src(c.func)
-        if f.endswith("extract_constraints"):
-            uses["extract_constraints"] = any(src(x) == var_name for x in c.args)
-        if f.endswith("extract_bounds"):
-            uses["extract_bounds"] = any(src(x) == var_name for x in c.args)
+        for what in ("extract_constraints", "extract_bounds"):
+            if f.endswith(what):
+                rs = [same_list(x) for x in c.args]
+                uses[what] = True if True in rs else (False if False in rs else None)
+                whys[what] = ", ".join(src(x)[:30] for x in c.args)
         if f == "LPData":
             from .common import constructor_fields
             fv = constructor_fields(prog, "LPData", c).get("variables")
             if isinstance(fv, ast.Name):
                 vals_ = [v for v in a.get(fv.id, []) if isinstance(v, ast.AST)]
                 fv = vals_[0] if len(vals_) == 1 else fv
-            for comp in ([fv] if fv is not None else []):
-                if True:
-                    uses["LPData.variables"] = isinstance(comp, ast.ListComp) and src(comp.generators[0].iter) == var_name and src(comp.elt).endswith(".name")
-    for k, v in uses.items():
-        rep.pin("LinearProgramExtractor.extract", "R07.3", f"LinearProgramExtractor.extract:{k}", v, f"{k} uses the variable list returned by extract_objective ('{var_name}')" if v else f"{k} does not use the variable list that defined the cost vector's columns ('{var_name}')", loc=ex.loc, detail="one-variable-list")
+            if isinstance(fv, ast.ListComp) and len(fv.generators) == 1 and src(fv.elt) == f"{src(fv.generators[0].target)}.name" and not fv.generators[0].ifs:
+                uses["LPData.variables"] = same_list(fv.generators[0].iter)
+                whys["LPData.variables"] = src(fv.generators[0].iter)[:40]
+            else:
+                uses["LPData.variables"] = None
+                whys["LPData.variables"] = src(fv)[:40] if fv is not None else "not visible"
+    for k in ("extract_constraints", "extract_bounds", "LPData.variables"):
+        v = uses.get(k)
+        if v is None:
+            rep.undecided(f"LinearProgramExtractor.extract:{k}: given `{whys.get(k, 'nothing found')}`; whether that is the variable list that defined the cost vector's columns ('{var_name}') is not decided")
+            continue
+        rep.ob("R07.3", f"LinearProgramExtractor.extract:{k}", v, f"{k} uses the variable list returned by extract_objective ('{var_name}')" if v else f"{k} is given `{whys[k]}`, a re-ordered / de-duplicated collection, not the list that defined the cost vector's columns ('{var_name}'): names and columns no longer line up", loc=ex.loc, detail="one-variable-list", robust=True)
 
     # ------------------------------------------------------------------ R07.4 handles
     S = prog.cls("Solution")
